@@ -221,9 +221,30 @@ func checkC10(rc *RunCtx) *Report {
 	return rep
 }
 
+// c04Extra: scenarios of C04 only (the C10 monitors have nothing to say about them).
+func c04Extra(thorough bool) []*Scenario {
+	a := func(leaf, v string) SetReqOrCall { return setReq("T1."+leaf+"="+v, upd("T1", "/cont/"+leaf, v)) }
+	one := WorldConfig{Targets: []string{"T1"}}
+	return []*Scenario{
+		{Name: "S6 Set refused by the device, second Set, connected; the device restarts empty anywhere", Cfg: one,
+			Init: func(w *World) {
+				connectAll("T1")(w)
+				w.devices["T1"].script = []codes.Code{codes.InvalidArgument} // the first apply is refused; later requests are accepted
+			},
+			Requests: []SetReqOrCall{a("leafA", "1"), a("leafA2", "2")}, Faults: []FaultSpec{faultDeviceRestart("T1")}, FaultBudget: 1},
+		{Name: "S7 Set while T1 is offline, a Set the model rejects, then the device connects", Cfg: one,
+			Init: func(w *World) {
+				w.plugins["T1"].SetVerdict(rejectIf(func(f map[string]string) bool { return f["/cont/leafA2"] == "bad" }, "leafA2 must not be bad"))
+			},
+			Requests: []SetReqOrCall{a("leafA", "1"), a("leafA2", "bad"), setReq("T1.sub/leafC=c", upd("T1", "/cont/sub/leafC", "c"))}, Faults: []FaultSpec{faultConnUp("T1")}, FaultBudget: 1},
+		{Name: "S5i Set on T1 connected; the device restarts empty twice; one step held at a store write while another controller runs", Cfg: one, Init: connectAll("T1"),
+			Requests: []SetReqOrCall{a("leafA", "1")}, Faults: []FaultSpec{faultDeviceRestart("T1"), faultConnDown("T1"), faultConnUp("T1")}, FaultBudget: 3, InterleaveBudget: 1},
+	}
+}
+
 func checkC04(rc *RunCtx) *Report {
 	rep := newReport("model_checking")
-	scs := c10Scenarios(rc.Thorough())
+	scs := append(c10Scenarios(rc.Thorough()), c04Extra(rc.Thorough())...)
 	if rc.Replay != "" {
 		replayE1(rc, rep, scs)
 		return rep
